@@ -1,10 +1,12 @@
 /-
   Dirk.Gen.Kernels — GENERATED — do not edit.  Regenerated on every run by /verif/factx (kernels.go) from the
-  Go source of three decision kernels in rules/standard; Dirk/Props/KernelsEq.lean proves each definition
+  Go source of the decision kernels (rules/standard, services/checker/static, services/process/standard);
+  Dirk/Props/KernelsEq.lean proves each definition
   equal to the hand-written model function.  A kernel outside the translatable fragment appears as
   `kernelUntranslatable_<name>` instead, and KernelsEq.lean does not build.
 -/
 import Dirk.Model.Rules
+import Dirk.Model.Checker
 
 set_option linter.unusedVariables false
 
@@ -70,6 +72,95 @@ def onSignGuards : List String := [
   "validIP := (metadata.IP ∈ s.adminIPs)  [for-range membership loop]",
   "bytes.Equal(req.Domain[0:4], e2types.DomainVoluntaryExit[:]) && !validIP => return rules.DENIED",
   "return rules.APPROVED"
+]
+
+/-- `regexify` (services/checker/static/parameters.go), the string handed to `regexp.Compile`, as a function of the parameter; model counterpart: `Dirk.regexify`. -/
+def regexifyGen (name : String) : String :=
+  "(?i)^(?:" ++ (if name = "" then ".*" else name) ++ ")$"
+
+/-- the guards of `regexify`, as written in the source, in order -/
+def regexifyGuards : List String := [
+  "if name == \"\" { name = \".*\" }",
+  "name = fmt.Sprintf(\"(?i)^(?:%s)$\", name)",
+  "return regexp.Compile(name)"
+]
+
+/-- `Check` (services/checker/static/service.go), inner loop over one matching path's operations: `some b` = `return b`, `none` = the loop ends without a verdict; model counterpart: `Dirk.check / Dirk.scanPaths / Dirk.scanOps`. -/
+def checkOpsGen (op : String) : List String → Option Bool
+  | [] => none
+  | o :: os =>
+    if (equalFold o "none") ∨ (equalFold o ("~" ++ op)) then some false
+    else if (equalFold o "all") ∨ (equalFold o op) then some true
+    else checkOpsGen op os
+
+/-- `Check` (services/checker/static/service.go), outer loop; each path is given as (did the wallet and the account regex both match?, its operations); model counterpart: `Dirk.check / Dirk.scanPaths / Dirk.scanOps`. -/
+def checkLoopGen (op : String) : List (Bool × List String) → Bool
+  | [] => false
+  | p :: ps =>
+    if p.1 then
+      match checkOpsGen op p.2 with
+      | some b => b
+      | none => checkLoopGen op ps
+    else checkLoopGen op ps
+
+/-- `Check` (services/checker/static/service.go), the guards before the loops: `some b` = `return b`, `none` = go on to the loops.
+    `credsNil`: credentials == nil; `client`: credentials.Client; `pathOk`: WalletAndAccountNames returned no error;
+    `wallet`: the wallet name it returned; `known`: the client has an entry in the access map; model counterpart: `Dirk.check / Dirk.scanPaths / Dirk.scanOps`. -/
+def checkGuardsGen (credsNil : Bool) (client : String) (pathOk : Bool) (wallet : String) (known : Bool) : Option Bool :=
+  if credsNil = true then some false
+  else if client = "" then some false
+  else if pathOk = false then some false
+  else if wallet = "" then some false
+  else if ¬ known then some false
+  else none
+
+/-- the guards of `Check`, as written in the source, in order -/
+def checkGuards : List String := [
+  "credentials == nil => return false",
+  "credentials.Client == \"\" => return false",
+  "walletName, accountName, err := e2wallet.WalletAndAccountNames(account); err != nil => return false",
+  "walletName == \"\" => return false",
+  "paths, exists := s.access[credentials.Client]  [map lookup: exists ↦ known]",
+  "!exists => return false",
+  "antiOperation := fmt.Sprintf(\"~%s\", operation)",
+  "for _, path := range paths { if path.wallet.MatchString(walletName) && path.account.MatchString(accountName) { for … range path.operations {",
+  "  strings.EqualFold(path.operations[i], \"none\") || strings.EqualFold(path.operations[i], antiOperation) => return false",
+  "  strings.EqualFold(path.operations[i], \"all\") || strings.EqualFold(path.operations[i], operation) => return true",
+  "} } }",
+  "return false"
+]
+
+/-- `OnGenerate` (services/process/standard/generate.go), the parameter checks at the top (uint32 arithmetic), `true` = none of them refuses; model counterpart: `Dirk.Dkg.generateAccepts`. -/
+def generateAcceptsGen (n : Nat) (t : Nat) : Bool :=
+  if n = 0 then false
+  else if t > n then false
+  else if t ≤ (n / 2) then false
+  else true
+
+/-- the guards of `OnGenerate`, as written in the source, in order -/
+def generateAcceptsGuards : List String := [
+  "numParticipants == 0 => refuse",
+  "signingThreshold > numParticipants => refuse",
+  "signingThreshold <= numParticipants/2 => refuse",
+  "[translation stops at: walletName, accountName, err := e2wallet.WalletAndAccountNames(account)]"
+]
+
+/-- `OnContribute` (services/process/standard/service.go), the conditions between the lookup of the generation and the storing of the contribution, `true` = stored.
+    `valid`: verifyContribution(generation.id, secret, vVec); `vlen`: len(vVec); `threshold`: generation.threshold;
+    `listed`: the sender id is the ID of one of generation.participants; model counterpart: `Dirk.Dkg.fixedAccepts`. -/
+def fixedAcceptsGen (valid : Bool) (vlen : Nat) (threshold : Nat) (listed : Bool) : Bool :=
+  if ¬ listed then false
+  else if vlen ≠ threshold then false
+  else if ¬ valid then false
+  else true
+
+/-- the guards of `OnContribute`, as written in the source, in order -/
+def fixedAcceptsGuards : List String := [
+  "isParticipant := (senderID ∈ IDs of generation.participants)  [for-range membership loop]",
+  "!isParticipant => refuse",
+  "len(vVec) != int(generation.threshold) => refuse",
+  "!verifyContribution(generation.id, secret, vVec) => refuse",
+  "accept: the contribution is stored (2 assignments), return …, nil"
 ]
 
 end Dirk.Gen
